@@ -230,6 +230,8 @@ func (d *db) removeAllLocked(shardID uint64, replicaID uint64, newLog bool) erro
 	}
 	index := d.mu.nodeStates.getIndex(shardID, replicaID)
 	index.removeAll()
+	// the removed state must not be used to skip the next state update
+	d.mu.nodeStates.setState(shardID, replicaID, pb.State{})
 	v := d.mu.versions.currentVersion()
 	ve := versionEdit{
 		deletedFiles: make(map[deletedFileEntry]*fileMetadata),
